@@ -95,15 +95,15 @@ theorem step_amounts (labs₀ : List Labware) (w : World) (hwf : WF w) (op : Op)
     the user inspects is the composition the executed file produces. -/
 theorem replay_composition (w₀ : World) (hwf : WF w₀) (hgood : Amt.Good w₀) (h0 : w₀.recs = [])
     (ops : List Op) (hops : ∀ op ∈ ops, Amt.traceable op = true) (hok : (w₀.run ops).2 = none) :
-    ∃ st, (RState.ofLabs w₀.labs).run w₀.cfg.dev (w₀.run ops).1.recs = some st
-      ∧ Match st (w₀.run ops).1 ∧ Amt.AmtOK st (w₀.run ops).1 := by
+    (∃ st, (RState.ofLabs w₀.labs).run w₀.cfg.dev (w₀.run ops).1.recs = some st
+      ∧ Match st (w₀.run ops).1 ∧ Amt.AmtOK st (w₀.run ops).1) ∧ Amt.Good (w₀.run ops).1 := by
   have hinv0 : Amt.AInv w₀.cfg.dev w₀.labs w₀ :=
     ⟨RState.ofLabs w₀.labs, by rw [h0]; rfl, match_ofLabs w₀, Amt.amtOK_ofLabs w₀ hgood⟩
   generalize hlabs : w₀.labs = labs₀ at hinv0 ⊢
   generalize hdev : w₀.cfg.dev = dev at hinv0 ⊢
   clear h0 hlabs
   induction ops generalizing w₀ with
-  | nil => exact hinv0
+  | nil => exact ⟨hinv0, hgood⟩
   | cons op ops ih =>
     have hop := hops op List.mem_cons_self
     unfold World.run at hok ⊢
@@ -192,7 +192,7 @@ example : Amt.Good exW := by
   intro L hL
   simp only [exW, List.mem_cons, List.not_mem_nil, or_false] at hL
   rcases hL with rfl | rfl
-  · refine ⟨⟨by decide +kernel, by decide +kernel, ?_⟩, ⟨by decide, ?_, ?_⟩⟩
+  · refine ⟨⟨by decide +kernel, by decide +kernel, ?_⟩, ⟨by decide, ?_, ?_⟩, ?_⟩
     · intro v hv
       simp only [exTrough, List.mem_cons, List.not_mem_nil, or_false, or_self] at hv
       subst hv; exact ⟨by decide +kernel, by decide +kernel⟩
@@ -204,12 +204,19 @@ example : Amt.Good exW := by
       subst hp
       simp only [List.mem_cons, List.not_mem_nil, or_false, or_self] at hf
       subst hf; decide +kernel
-  · refine ⟨⟨by decide +kernel, by decide +kernel, ?_⟩, ⟨by decide, ?_, ?_⟩⟩
+    · intro i hi
+      have : i = 0 ∨ i = 1 := by simp only [exTrough, List.length_cons, List.length_nil] at hi; omega
+      rcases this with rfl | rfl <;> exact Or.inl (by decide +kernel)
+  · refine ⟨⟨by decide +kernel, by decide +kernel, ?_⟩, ⟨by decide, ?_, ?_⟩, ?_⟩
     · intro v hv
       simp only [exPlate, List.mem_cons, List.not_mem_nil, or_false, or_self] at hv
       subst hv; exact ⟨by decide +kernel, by decide +kernel⟩
     · intro p hp; simp [exPlate] at hp
     · intro p hp; simp [exPlate] at hp
+    · intro i _
+      exact Or.inr ⟨by simp [C05.fracSum, exPlate], by
+        simp only [Labware.vol, exPlate]
+        rcases i with _ | _ | _ | _ | _ | _ | i <;> simp [List.getD]⟩
 example : ∀ op ∈ exOps, Amt.traceable op = true := by decide
 example : ((RState.ofLabs exW.labs).run .evo (exW.run exOps).1.recs).map
     (fun st => st.labs.map (fun L => L.wells.map (fun wl => amtOf wl.amts "water")))
